@@ -35,7 +35,7 @@ BOUNDS = {
     },
     "C02": {
         "quick": "expr: depth<=1 over 11 forms (atoms: symbolic int, global a, possibly-unbound x); nested: 12 outer forms x depth-1 expression in one operand position; loops: 8 shapes, bound n in [0,3], break/continue index symbolic; calls: 15 shapes (incl. map/apply over lists and arrays, elements on which the function fails, nested maps); truthiness: 23 values (ints, floats incl. 0.0/-0.0/NaN, strings, arrays, hashes, nil, booleans, chars, uint64, symbols, functions, computed values) x 7 test positions (cond, and, or, not, for test, parameter, infix if); recursion: a self-recursive function with its recursive call in 11 kinds of position (tail, non-final and/or operand, arithmetic operand, let binding, non-final statement, cond test, argument of a tail self call, ...) x 2 guards x 9 outer x 3 (thorough 9) inner tail-context wrappers, depth n in 0..3. Operands assumed inside +-2^31 (C07 owns the boundaries). Reference evaluator unwinding bound 4 iterations / 200 calls.",
-        "thorough": "expr depth<=2.",
+        "thorough": "expr depth<=2 with one operand of the outer form (every choice of which) one level deep and the others atoms, + and - only below a depth-2 root (all operands deep, or products under comparisons, exceed the path cap / the solver's time limit).",
         "assumptions": ["oracle: the reference evaluator in harness/zz_verif_eval.go encoding Appendix A of DESIGN.md", "outside: surface syntax (ASTs are built directly), strings/hashes as operands, infix, deeper nesting"],
     },
     "C04": {
